@@ -125,7 +125,7 @@ func h03c() {
 	n1, e1 := zzStreamRead(s1, t)
 	s1.Close()
 
-	c1 := &zzChunky{b: b, zeros: 1}
+	c1 := &zzChunky{b: b, zeros: 1, free: -1}
 	s2 := NewStreamReader(c1)
 	n2, e2 := zzStreamRead(s2, t)
 	s2.Close()
@@ -142,7 +142,7 @@ func h03c() {
 	s3 := NewStreamReader(o2)
 	e3 := s3.Skip(t)
 	s3.Close()
-	c2 := &zzChunky{b: b, zeros: 1}
+	c2 := &zzChunky{b: b, zeros: 1, free: -1}
 	s4 := NewStreamReader(c2)
 	e4 := s4.Skip(t)
 	s4.Close()
